@@ -341,6 +341,17 @@ def free_stage(d, run, what, combos, est=False, kinds=None, pclear=None):
         else:
             d.log(str(r.get("detail"))[-1500:])
             raise d.ToolError("free-running trace validation error")
+        if kinds and "par" in kinds:
+            # lock discipline of the parallel threads and of the cache's own worker threads, under real parallelism
+            lr = d.validate_trace("Locks_Trace.tla", "Locks_Trace.cfg", trace, wd)
+            if lr["status"] in ("rejected", "invariant"):
+                lines = open(trace).read().splitlines(True)
+                bad = min(lr.get("line", 1) + (1 if lr["status"] == "invariant" else 0), len(lines))
+                run.violation("lock discipline of Locks.tla broken by free-running threads [%s/%s]: %s %s at %s" % (
+                    flavor, ex, lr["status"], lr.get("detail"), lines[bad - 1][:400] if lines else ""), replay_lines=lines[max(0, bad - 3):bad])
+            elif lr["status"] != "accepted":
+                d.log(str(lr.get("detail"))[-1500:])
+                raise d.ToolError("lock trace validation error (free-running)")
         run.traces += n
         run.evaluations += info.get("lines", 0)
         run.notes.setdefault("free_running", []).append({"flavor": flavor, "executor": ex, "instances": n, "snapshots": info.get("lines"), "stuck": info.get("stuck")})
